@@ -33,6 +33,11 @@ def run(ctx, br):
                                 continue          # a link stall shorter than the timeout needs a timeout of some size
                             late = max(5, (t // 1000) * rng.choice([40, 60, 80]) // 100)
                         reqs.append({"transport": tr, "stall": st, "timeout_us": t, "late_ms": late, "oneway": oneway})
+    # HTTP: the peer takes the request, is silent for 3/4 of the timeout and hangs up without answering (every time): the
+    # call is over, with an error, when the connection is - and in any case within its timeout
+    for t in ([800000, 1200000] if quick else [700000, 800000, 1000000, 1200000, 2000000]):
+        for oneway in (False, True):
+            reqs.append({"transport": "http", "stall": "hangup", "timeout_us": t, "late_ms": t * 3 // 4000, "oneway": oneway})
     if not quick:
         for _ in range(200):
             t = rng.randrange(300, 120000)
@@ -57,6 +62,10 @@ def run(ctx, br):
             return "returned %d us after its %d us timeout" % (over, q["timeout_us"])
         if q.get("oneway") and q["transport"] == "nats" and r.get("code") == 0:
             return None       # a oneway over NATS is handed to the connection's buffer and returns (nil) without waiting for the link
+        if q["stall"] == "hangup":
+            if r.get("code") == 0:
+                return "the peer hung up without answering, yet the call reported success"
+            return None       # the error is the connection's (EOF / reset), or TIMED_OUT
         if r.get("code") != 3:
             return "no response arrived in time but the call reported class %s (%s), not TIMED_OUT" % (r.get("code"), r.get("msg"))
         if q["transport"] != "http" and r.get("reglen") != 0:
